@@ -307,10 +307,10 @@ def verus_owned(unit, prop, fname):
 TECH = 'contract-based deductive verification of the real code: Verus contracts on verbatim-extracted functions + Kani contract harnesses on the staged real crate'
 
 NA = {
-    'C02': 'postcondition of the recursive syscommand_runner over arbitrary trees: outside Verus\' subset (closure capturing &mut World passed to VecDeque::retain, Box<dyn FnMut>, generic resources); Kani cannot compile real Bevy (compiler ICE) and did not finish a 3-run tree on the stubbed crate in 20 min; no inductive contract is expressible for the non-root calls (would need modifies over a World)',
-    'C09': 'an order relation over all pairs of runs of a tree produced by the recursive runner plus Bevy\'s per-command flush: same reach problem as C02, and the oracle would be a reference interpreter of the expected order (a model: different family). The order-relevant contracts that are provable (queue FIFO, per-system metadata FIFO) are owned by C12',
-    'C11': 'Idle(world) after every tree is a postcondition of the root call of syscommand_runner: same reach problem as C02; the function-level ingredients (end clears, start consumes exactly one parked entry, cleanup_on_abort) are discharged under C03/C04/C05',
-    'C15': 'the behaviour lives in an anonymous closure built inside ReactCommands::once; no nameable function carries a contract that states it, and it is observable only by running reaction trees through the runner (C02)',
+    'C02': 'a statement about WHOLE TREES of runs: \'exactly once for every scheduled run, all of them done when the flush returns\'. The per-call contract of syscommand_runner is proved (unit runner: abort / postpone / replay-step / poll / reinsert clauses A-G on the verbatim body with its replay closure lifted), but a run\'s body is an arbitrary system (an uninterpreted effect that can queue anything), so lifting the per-call clauses to \'every run of every tree\' needs an induction over the tree with a measure on opaque effects - no contract within reach of Verus or Kani states or decides it (Kani cannot compile real Bevy and did not finish a 3-run tree on the stubbed crate in 20 min)',
+    'C09': 'an order relation over all pairs of runs of a tree produced by the recursive runner plus Bevy\'s per-command flush: whole-tree statement like C02, and the oracle would be a reference interpreter of the expected order (a model: different family). The order-relevant contracts that ARE provable - queue FIFO, per-system metadata FIFO, replay of postponed commands front to back with their own triple, postponed commands appended at the end - are owned by C12',
+    'C11': 'Idle(world) after every tree is a postcondition of the ROOT call of syscommand_runner over everything the tree did: the provable part - the root call that ran its system returns with counter 0 and an empty buffer (clause C), no exit while a callback is held (G), the same callback stored back (F), end_* clear their trackers - is discharged under C03/C04/C05/C13; that NO metadata is left parked after an arbitrary tree is an inductive statement over opaque system bodies, as for C02',
+    'C15': 'the behaviour lives in two nested anonymous closures built inside ReactCommands::once (the inner one passes further closures over &mut World to run_with_cleanup / World::react); closure lifting (DESIGN 9.2) handles one level with std-documented combinators, not this shape, and \'runs on the first trigger and never again\' is observable only by running reaction trees through the runner (C02)',
 }
 
 # property -> claim.
